@@ -1,12 +1,23 @@
 #!/bin/sh
-# usage: mutant_recheck.sh <n> — applies mutation n (set $MUTATE_SET) to a scratch copy and runs only the checker
-# (all properties on one load; binary $WTCHECK or bin/wtcheck). VERBOSE=1 prints the reports.
+# usage: mutant_recheck.sh <n> — re-creates mutation n (set $MUTATE_SET) and runs only the checker on it (all properties
+# on one load; binary $WTCHECK or bin/wtcheck). VERBOSE=1 prints the reports.
+# The campaigns numbered their mutants on /repo at $MUTATE_BASE (default a64fc04: the numbering of the campaigns, which
+# were run at 41eb48c, is unchanged there). Later fix: commits add sites and would shift the numbers, so the mutation is
+# produced on a copy of that commit and carried over to HEAD as a patch.
 n=$1
 bin=${WTCHECK:-/verif/bin/wtcheck}
+base=${MUTATE_BASE:-a64fc04}
 d=$(mktemp -d /tmp/wtmr.XXXXXX); trap 'rm -rf "$d"' EXIT
-git -C /repo archive HEAD | tar -x -C "$d"
-desc=$(/verif/bin/mutate apply "$d" $n)
-$bin -all -repo "$d" >"$d/.out" 2>&1
+mkdir "$d/a" "$d/b" "$d/h"
+git -C /repo archive $base | tar -x -C "$d/a"
+cp -r "$d/a/." "$d/b/"
+desc=$(/verif/bin/mutate apply "$d/b" $n)
+(cd "$d" && diff -ruN a b > m.diff)
+git -C /repo archive HEAD | tar -x -C "$d/h"
+if ! (cd "$d/h" && patch -p1 -s --no-backup-if-mismatch < ../m.diff >/dev/null 2>&1); then
+  echo "$desc	N/A (the mutated line was changed by a later fix)"; exit 0
+fi
+$bin -all -repo "$d/h" >"$d/.out" 2>&1
 det=$(grep -E '^(C[0-9][0-9] FAIL|LOAD-FAILED)' "$d/.out" | cut -d' ' -f1 | sort -u | tr '\n' ' ')
 [ -n "$VERBOSE" ] && grep -E ' FAIL |LOAD-FAILED|panic' "$d/.out" | cut -c1-300
 if [ -n "$det" ]; then echo "$desc	detected: $det"; else echo "$desc	SURVIVED"; fi
